@@ -406,6 +406,15 @@ pub const CHAINS: &[Chain] = &[
     Chain { name: "unclosed-strings", head: "\"", link: " \"", prefix: "fn f() { ", suffix: "" },
     Chain { name: "ats", head: "@", link: "@", prefix: "", suffix: "" },
     Chain { name: "dots", head: "a", link: ".", prefix: "fn f() { ", suffix: " }" },
+    // wide constructs: thousands of tokens inside ONE pair of delimiters (tables of bytes, long tuples and
+    // parameter lists): whatever a production looks ahead for, or counts, per delimiter pair
+    Chain { name: "bit-array-segments", head: "<<1", link: ", 1", prefix: "fn f() { ", suffix: ">> }" },
+    Chain { name: "const-bit-array", head: "<<0", link: ", 255", prefix: "const table = ", suffix: ">>\nfn f() { table }" },
+    Chain { name: "const-list", head: "[0", link: ", 255", prefix: "const table = ", suffix: "]\nfn f() { table }" },
+    Chain { name: "tuple-elems", head: "#(1", link: ", 1", prefix: "fn f() { ", suffix: ") }" },
+    Chain { name: "params", head: "a", link: ", a", prefix: "fn f(", suffix: ") { 1 }" },
+    Chain { name: "fields", head: "a: Int", link: ", a: Int", prefix: "type T { T(", suffix: ") }" },
+    Chain { name: "list-pattern", head: "[1", link: ", 1", prefix: "fn f(x) { case x { ", suffix: "] -> 1 } }" },
 ];
 
 pub fn chain_text(c: &Chain, n: usize) -> String {
